@@ -120,10 +120,31 @@ pub struct LibValue {
 
 /// evaluate with the library; node-sets are mapped to reference indices
 pub fn lib_eval(doc: &xml_dom::XmlDocument, map: &xmap::NodeMap, expr: &str, ns: &[(String, String)]) -> Json {
+    lib_eval_used(doc, map, expr, ns, false)
+}
+
+/// a document and queries that an evaluation context has served before it is handed to the query under test
+const EARLIER_DOC: &str = "<r xmlns:p='urn:1' k='1'><e id='a'>t<p:e p:id='b'>u</p:e></e><x/><!--c--><x k='2'><y/>v</x></r>";
+const EARLIER_QUERIES: &[&str] = &[
+    "//*", "count(//node())", "//x[2]", "/r/@k", "/r/e[@id]", "//e[note[2] or position()=last()]", "//*[nosuch()]", "(//x)[last()]/y", "/r/namespace::*", "//@*", "string(//e)", "//x[y][last()]", "//e/..",
+];
+
+/// `used`: the context has evaluated other queries on another document before (a caller may keep one context)
+pub fn lib_eval_used(doc: &xml_dom::XmlDocument, map: &xmap::NodeMap, expr: &str, ns: &[(String, String)], used: bool) -> Json {
     let r = panics::catch(|| {
         let mut ctx = xml_xpath::eval::model::Context::default();
         for (p, u) in ns {
             ctx.add_ns(Some(p.as_str()), u.as_str());
+        }
+        if used {
+            if let Ok((_, earlier)) = xml_dom::XmlDocument::from_raw_with_context(EARLIER_DOC, xml_dom::Context::from_text_expanded(true)) {
+                let n = EARLIER_QUERIES.len();
+                // which queries came before depends on the expression only (replayable)
+                let start = expr.len() % n;
+                for k in 0..(1 + expr.len() % 4) {
+                    let _ = xml_xpath::query(earlier.clone(), EARLIER_QUERIES[(start + k) % n], &mut ctx);
+                }
+            }
         }
         match xml_xpath::query(doc.clone(), expr, &mut ctx) {
             Ok(v) => Ok(v),
@@ -287,6 +308,17 @@ pub fn check_case(id: &str, case: &Json, obs: &mut Obs) -> Verdict {
     }
     let got = lib_eval(&doc, &map, expr, &ns);
     if values_agree(expected, &got, &tree) {
+        // a context that has served another document before gives the same value
+        let got_used = lib_eval_used(&doc, &map, expr, &ns, true);
+        obs.label("used-context-also");
+        if !values_agree(expected, &got_used, &tree) {
+            let key = format!("{}.used-context-differs.{}", id.to_lowercase(), got_used["t"].as_str().unwrap_or("?"));
+            if skip_known(id, &key) {
+                obs.known_hits.push(key);
+                return Verdict::Pass;
+            }
+            return Verdict::fail(key, format!("{} on {:?} with a context that has evaluated queries on {:?} before: XPath 1.0 says {}, the library says {} (a fresh context is right)", expr, text, EARLIER_DOC, crate::oracle::canon::short(expected), crate::oracle::canon::short(&got_used)));
+        }
         // the raw view coincides with the merged one when the text has no reference and no CDATA section
         if !text.contains('&') && !text.contains("<![CDATA[") {
             if let Ok((rest, raw)) = xml_dom::XmlDocument::from_raw(text) {
